@@ -1,10 +1,6 @@
 SPECIFICATION Spec
 CONSTANTS
-  DocSet = "unit"
-  CfgSet = "singles"
-  MaxComments = 0
-  OnlyDocumented = TRUE
-  Specials = FALSE
+  Plans <- DefaultPlans
 INVARIANTS
   Preserved
   CommentsKept
